@@ -479,14 +479,22 @@ func init() {
 					continue
 				}
 				bin, ok := ifi.Cond.(*ssa.BinOp)
-				if !ok || bin.Op != token.LSS {
+				if !ok || (bin.Op != token.LSS && bin.Op != token.GEQ) {
 					continue
 				}
 				if p, ok := bin.X.(*ssa.Parameter); !ok || p != fn.Params[2] {
 					continue
 				}
 				if ld, ok := bin.Y.(*ssa.UnOp); ok && strings.HasSuffix(accessPath(ld.X), ".footer.numDocs") {
-					guard = b.Succs[0]
+					// the successor on which num < numDocs holds
+					if bin.Op == token.LSS {
+						guard = b.Succs[0]
+					} else {
+						guard = b.Succs[1]
+					}
+					if len(guard.Preds) != 1 {
+						guard = nil
+					}
 				}
 			}
 			if guard == nil {
